@@ -740,18 +740,12 @@ def call_ext(E, st, mod, name, args, kwargs, node=None):
         s2, e = E.mk_exc(st, "SystemExit", args)
         return [Out("raise", s2, e)]
     if full == "time.time":
-        hook = getattr(E.R, "clock_hook", None)
-        if hook is not None:
-            return hook(E, st)
-        E.trusted.add("model: time.time() returns an arbitrary real, non-decreasing along a path")
+        # model: the clock is a ghost real that never goes backwards; every call returns a value >= the last one
+        E.trusted.add("model: time.time() returns an arbitrary real, non-decreasing along every execution")
+        cur = clock_value(E, st)
         t = z3.Real(fresh_name("now"))
-        last = st.ghost.get("clock")
-        s = st.copy()
-        if last is not None:
-            s = s.assume(t >= last)
-        else:
-            s = s.assume(t >= 0)
-        s.ghost["clock"] = t
+        s = st.assume(t >= cur)
+        s = set_clock(E, s, t)
         return ok(s, V(REAL, t))
     if full == "itertools.takewhile":
         f, src = args
@@ -781,6 +775,16 @@ def call_ext(E, st, mod, name, args, kwargs, node=None):
         if r is not None:
             return r
     raise Unsupported("external function %s" % full)
+
+
+def clock_value(E, st):
+    return z3.Select(E.arr(st, "G|clock", z3.IntSort(), z3.RealSort()), z3.IntVal(0))
+
+
+def set_clock(E, st, t):
+    s = st.copy()
+    s.heap["G|clock"] = z3.Store(E.arr(s, "G|clock", z3.IntSort(), z3.RealSort()), z3.IntVal(0), t)
+    return s
 
 
 def regex_to_z3(pat):
